@@ -653,6 +653,10 @@ class Program:
             if c.get('blocks'):
                 self.const_fns[c['path']] = Fn(self, {'id': 'const ' + c['path'], 'kind': 'Const', 'parent': None, 'public': False, 'span': c['span'], 'body_span': c['span'],
                                                       'arg_count': 0, 'locals': c['locals'], 'debug': [], 'blocks': c['blocks'], 'promoted': [], 'inputs': [], 'output': c['ty']})
+                for pb in c.get('promoted_bodies') or []:
+                    self.const_fns['%s::promoted[%d]' % (c['path'], pb['i'])] = Fn(self, {
+                        'id': 'const %s::promoted[%d]' % (c['path'], pb['i']), 'kind': 'Const', 'parent': None, 'public': False, 'span': c['span'], 'body_span': c['span'],
+                        'arg_count': 0, 'locals': pb['locals'], 'debug': [], 'blocks': pb['blocks'], 'promoted': [], 'inputs': [], 'output': pb['locals'][0]['ty']})
         self.statics = d['statics']
         self.consts = d['consts']
         self.impls = d['impls']
@@ -1096,8 +1100,11 @@ class Fn:
                     adt = self.prog.adts.get(ma.group(1)) if ma else None
                     if adt is not None and int(ma.group(2)) < len(adt['variants']) and not adt['variants'][int(ma.group(2))]['fields']:
                         return ('agg', ma.group(1) + '::' + adt['variants'][int(ma.group(2))]['name'], [])
-            # a named `const` item of the crate whose initialiser was dumped: its value
-            cf = getattr(self.prog, 'const_fns', {}).get(op.get('named'))
+            # a named `const` item of the crate whose initialiser was dumped: its value (also when that value sits in a promoted
+            # body of the const: `const T: &[..] = &[..]`)
+            cf = getattr(self.prog, 'const_fns', {}).get(op.get('text', '')) if m_ else None
+            if cf is None:
+                cf = getattr(self.prog, 'const_fns', {}).get(op.get('named'))
             if cf is not None and cf is not self and depth < 300:
                 v = cf.const_value()
                 if v is not None:
